@@ -110,6 +110,8 @@ pub fn parallel_parse(
     let collector_thread = thread::spawn(move || {
         let mut crate_parsed_data: BTreeMap<CrateName, ParsedData> = BTreeMap::new();
 
+        #[cfg(typeshare_verif)]
+        let rx = crate::verif_hooks::reorder(rx);
         for result in rx {
             let parsed_data = result?;
             let crate_name = parsed_data.crate_name.clone();
@@ -124,6 +126,8 @@ pub fn parallel_parse(
         let tx = tx.clone();
 
         Box::new(move |result| {
+            #[cfg(typeshare_verif)]
+            crate::verif_hooks::before_entry(&result);
             let result = result.context("Failed traversing").and_then(|dir_entry| {
                 parse_dir_entry(parse_context, language_type, &dir_entry)
                     .with_context(|| format!("Parsing failed: {:?}", dir_entry.path()))
